@@ -576,6 +576,15 @@ func c06WRRHealth(c *lab.Ctx) {
 			for _, hi := range rng.Perm(n)[:k] {
 				segs[si][hi] = true
 			}
+			if rng.Chance(1, 3) {
+				// the k lightest hosts are the unhealthy ones (ties included on the unhealthy side only if all of that weight fit)
+				order := rng.Perm(n)
+				sort.SliceStable(order, func(a, b int) bool { return ws[order[a]] < ws[order[b]] })
+				segs[si] = make([]bool, n)
+				for _, hi := range order[:k] {
+					segs[si][hi] = true
+				}
+			}
 			if rng.Chance(1, 4) && si > 0 {
 				segs[si] = make([]bool, n) // an all-healthy stretch in the middle
 			}
@@ -609,6 +618,25 @@ func c06WRRHealth(c *lab.Ctx) {
 			class := "some-unhealthy"
 			if allHealthy {
 				class = "all-healthy-after-recovery"
+			}
+			// a sub-zone of the unhealthy segments that IS judged: no unhealthy host is heavier than any healthy one. The scheduler
+			// then meets at most one entry of every unhealthy host between two healthy entries, i.e. fewer consecutive unhealthy
+			// entries than the set has hosts, and skipping them leaves the order of the healthy hosts untouched
+			lightUnhealthy := !allHealthy
+			if lightUnhealthy {
+				var maxU, minH uint32 = 0, 1 << 30
+				for i := range ws {
+					if segs[si][i] && ws[i] > maxU {
+						maxU = ws[i]
+					}
+					if !segs[si][i] && ws[i] < minH {
+						minH = ws[i]
+					}
+				}
+				lightUnhealthy = maxU <= minH
+				if lightUnhealthy {
+					class = "unhealthy-hosts-not-heavier-than-healthy-ones"
+				}
 			}
 			cnt := make([]int, n)
 			type mm struct{ max, min float64 }
@@ -647,7 +675,7 @@ func c06WRRHealth(c *lab.Ctx) {
 							m.min = f
 						}
 						bound := 1/float64(ws[i]) + 1/float64(ws[j]) + 1e-9
-						if m.max-m.min > bound && !allHealthy {
+						if m.max-m.min > bound && !allHealthy && !lightUnhealthy {
 							// not judged: the statement quantifies over windows of picks over healthy hosts of a healthy set; while a
 							// host of large weight is unhealthy the balancer falls back to its unweighted scan (observed, counted)
 							c.Count("wrr-health-bound-exceeded-while-some-host-unhealthy(not judged)", 1)
